@@ -183,7 +183,7 @@ def _job_alarm(signum, frame):
     raise _JobTimeout()
 
 
-JOB_TIMEOUT = int(os.environ.get('VERIF_JOB_TIMEOUT', '1500'))
+JOB_TIMEOUT = int(os.environ.get('VERIF_JOB_TIMEOUT') or (1500 if os.environ.get('VERIF_TIER', 'quick') == 'quick' else 3600))   # seconds; thorough jobs are larger and the machine may be shared
 
 
 def _guard(fn, job):
